@@ -5,6 +5,7 @@
 pub mod stubs;
 pub mod streams;
 
+pub mod c06_convert;
 pub mod c37_backoff;
 
 /// Native replay of a counterexample (written by /verif/check; see DESIGN.md 2.6).
